@@ -102,6 +102,13 @@ Theorem C05_keys_related_iff_voxels_related : forall a b, sdom a -> sdom b ->
 Proof. exact key_overlap_iff. Qed.
 Print Assumptions C05_keys_related_iff_voxels_related.
 
+(* the tree model by itself, for any keys and queries with coordinates in [0, 2^zoom) (zoom 0 included): Append all, then IsOverlap =
+   some stored key is related to the query by ancestor-or-equal on all three coordinates *)
+Theorem C05_radix_tree_is_ancestor_relation : forall keys qs,
+  (forall k, In k keys -> in_range4 k) -> (forall q, In q qs -> in_range4 q) -> tree_model keys qs = tree_ref keys qs.
+Proof. exact tree_model_is_ref. Qed.
+Print Assumptions C05_radix_tree_is_ancestor_relation.
+
 (* ---- spatial-ID form (CheckSpatialIdsOverlap / ...ArrayOverlap) ---- *)
 
 (* the offset conversion, exactly: for every zoom 0..63 and EVERY index, inside the altitude domain (zoom >= 1 and -2^(z-1) <= f < 2^(z-1),
